@@ -602,6 +602,19 @@ int EGLPNUM_TYPENAME_ILLlib_chgbnds (
 	int rval = 0;
 	int i;
 
+	/* check the whole list first: a rejected call must not change anything */
+	for (i = 0; lp && i < cnt; i++)
+	{
+		if (indx[i] < 0 || indx[i] >= lp->O->nstruct ||
+				(lu[i] != 'L' && lu[i] != 'U' && lu[i] != 'B'))
+		{
+			QSlog("EGLPNUM_TYPENAME_ILLlib_chgbnds called with bad indx %d or lu %c",
+									indx[i], lu[i]);
+			rval = 1;
+			ILL_CLEANUP;
+		}
+	}
+
 	for (i = 0; i < cnt; i++)
 	{
 		rval = EGLPNUM_TYPENAME_ILLlib_chgbnd (lp, indx[i], lu[i], bnd[i]);
